@@ -34,11 +34,15 @@ TU = TypeVar("TU")
 
 
 def registry():
-    return {}
+    from contracts import typing_c
+    return {**{c.short: c for c in typing_c.ALL}, **{c.name: c for c in typing_c.ALL}}
 
 
 def proof_items():
-    return []
+    from contracts import typing_c
+    from vf.driver import ProofItem
+    return [ProofItem(typing_c.all_types_compatible, gen=typing_c.gen),
+            ProofItem(typing_c.compare_generic_type_args, gen=typing_c.gen)]
 
 
 # ---- annotation terms: plain data so that the reference does not depend on typing introspection --------------------
